@@ -5,14 +5,14 @@ sys.path.insert(0, os.path.dirname(os.path.dirname(os.path.abspath(__file__))))
 import coqreplay as _coqreplay
 
 PROP = {
-    "coq": ["C01", "Findings", "C01s"],
+    "coq": ["C01", "C01r", "Findings", "C01s"],
     "pre": [regen_src],
     "extra": [_coqreplay.replay_cc],
     "exhaustive": False,
     "rule": "Public client calls on a scripted connection (tcp and rtuovertcp framing), peer silent: all 30 read/write calls x "
             "boundary-directed addresses/quantities/slice lengths (0, 1, limit-1, limit, limit+1, 65535, lengths >= 65536, "
             "multi-register counts whose register total overflows 16 bits) x unit ids x byte/word orders; observables: error class "
-            "and every Write call's bytes. Plus a sweep over the quantities of the typed multi-register reads, and scenario txreal: NewClient + real Open() for tcp, udp, tcp+tls (real handshake), rtuovertcp, rtuoverudp and rtu (pty), random calls, the bytes the silent loopback peer received compared with the model frame.",
+            "and every Write call's bytes. Plus a sweep over the quantities of the typed multi-register reads, and scenario txreal: NewClient + real Open() for tcp, udp, tcp+tls (real handshake), rtuovertcp, rtuoverudp and rtu (pty), random calls, the bytes the silent loopback peer received compared with the model frame. Scenario txhang: real Open() for tcp, rtuovertcp and tcp+tls against a listener that keeps accepting and logs every byte of EVERY connection; the peer reads the whole request and closes / resets / sends a strict prefix of the valid reply and closes or resets, or hangs up before / inside the request; observable: the bytes received per accepted connection until the call has returned, a grace period has passed and the client is closed, and the result class, compared with Model/PeerView.v (one connection, one frame, an error).",
     "assumptions": ["the bulk of the cases run on the scripted connection (tcp and rtuovertcp framing); all six transports are exercised through the real Open() on loopback sockets / a pty with a smaller number of calls (scenario txreal)"],
 }
 CLAIM = {
